@@ -144,6 +144,9 @@ def check_history(c):
     obj = guard(MD6, c["d"], c["key"], c["L"]) if c["key"] else guard(MD6, c["d"], L=c["L"])
     obj.rounds = c["rounds"]
     for i, (M, bl) in enumerate(c["msgs"]):
+        if bl is not None and bl > 8 * len(M):
+            attempt(obj, M, bitlen=bl)    # over-long bit length: refused or not, only the calls after it are judged
+            continue
         got = guard(obj, M) if bl is None else guard(obj, M, bitlen=bl)
         exp = R.md6(M, bl, d=c["d"], key=c["key"], L=c["L"], r=c["rounds"])
         if got != exp:
@@ -152,8 +155,9 @@ def check_history(c):
 
 def history_strategy(tier):
     msg = st.tuples(gen.blob_of(gen.pick((2, gen.uint(0, 600)), (1, gen.uint(601, 2600)))), gen.uint(0, 9)).map(
-        lambda t: (t[0], None if t[1] > 6 or not t[0] else 8 * len(t[0]) - t[1]))
-    return st.builds(lambda d, L, key, r, msgs: {"d": d, "L": L, "key": key, "rounds": r, "msgs": tuple(msgs)},
+        lambda t: (t[0], 8 * len(t[0]) + 3 if t[1] == 9 else None if t[1] > 6 or not t[0] else 8 * len(t[0]) - t[1]))
+    return st.builds(lambda d, L, key, r, msgs: {"d": d, "L": L, "key": key, "rounds": r,
+                                                 "msgs": tuple(msgs) + ((b"after", None),) * (msgs[-1][1] is not None and msgs[-1][1] > 8 * len(msgs[-1][0]))},
                      st.sampled_from([8, 160, 256, 300, 512]), st.sampled_from([0, 1, 64]), keys(), gen.uint(1, 4), st.lists(msg, min_size=2, max_size=4))
 
 
